@@ -146,7 +146,7 @@ def e2e_cancel_app(ctx):
         ctx.count("e2e-cancel", ("e2e-cancel", o["cmd"], o["stall"]), nontrivial=o["request_seen"],
                   sample={"cmd": o["cmd"], "stalled_request": o["stall"], "exit_ms_after_sigint": o["exit_ms_after_sigint"]})
         why = None
-        if not o["request_seen"]:
+        if not o["request_seen"] and o["stall"] != "stdin-open":
             ctx.skipped.append("e2e cancel %s/%s: the probe never reached the peer (%s)" % (o["cmd"], o["stall"], o["stderr"][:100]))
             continue
         if not o["exited"]:
@@ -155,9 +155,13 @@ def e2e_cancel_app(ctx):
             why = "the process exits only %d ms after SIGINT" % o["exit_ms_after_sigint"]
         elif o["bad_lines"]:
             why = "%d printed lines are not complete records" % o["bad_lines"]
-        if why:
+        if why and o["stall"] == "stdin-open":
+            why = "sx %s -p <port> -f - -t 30s with the address list on a pipe that stays open (one address written), peer silent, SIGINT %s: %s" % (
+                o["cmd"], "while the request is in flight" if o["request_seen"] else "3 s after the start (no probe had been made)", why)
+        elif why:
             why = "sx %s -t 30s against a peer that never answers the %s request, SIGINT while the request is in flight: %s" % (
                 o["cmd"], o["stall"], why)
+        if why:
             path = ctx.write_replay("e2e-cancel-%s-%s" % (o["cmd"], o["stall"]), {"property": "C12", "what": why, "input": {"args": o["args"], "stall": o["stall"]}, "observed": o})
             ctx.findings.append({"key": "e2e-cancel:%s:%s" % (o["cmd"], o["stall"]), "what": why, "replay": path})
 
